@@ -16,9 +16,9 @@ def run_prop(args):
     try:
         mod = importlib.import_module('sa.rules.' + prop.lower())
         run = Run(prop, Tree(root=root))
-        mod.check(run)
+        run.guard(mod.check, run)
         known = {k['key'] for k in load_known() if k.get('property') == prop and k.get('status') == 'known'}
-        return prop, [f.key for f in run.findings if f.key not in known], None
+        return prop, [f.key for f in run.findings if f.key not in known], ('ANALYSIS-ERROR ' + '; '.join(run.analysis_errors)[:150]) if run.analysis_errors else None
     except AnalysisError as e:
         return prop, [], 'ANALYSIS-ERROR ' + str(e)[:150]
     except Exception as e:
